@@ -172,9 +172,10 @@ CheckAndEmit == need = << >> =>
      /\ PrintT(<<"CASE", ToJson([i |-> In(t), p |-> TextOf(pp), r |-> IF pr = pp THEN "=" ELSE TextOf(pr),
                                  ok |-> okp, okr |-> okr, d |-> DiffSeq(UsedDiff("arg", t)), ra |-> ra,
                                  p2 |-> IF p2 = pp THEN "=" ELSE TextOf(p2), r2 |-> IF r2 = pr THEN "=" ELSE TextOf(r2)])>>)
-     \* the echo reads back (up to re-association); the echo of what was read is a fixpoint from then on
+     \* the echo reads back (up to re-association), as exactly the tree LeftAssocT(t); the echo of that tree is a fixpoint
      /\ (IF Variant = "pinned" THEN okp ELSE okr)
-     /\ (ra => SecondEcho(Variant, LeftAssocT(t)) = (IF Variant = "pinned" THEN p2 ELSE r2))
+     /\ (okp => MirrorsReader(pp, t)) /\ (okr /\ pr # pp => MirrorsReader(pr, t))
+     /\ (ra => LeftAssocT(LeftAssocT(t)) = LeftAssocT(t))
 
 \* the table itself, for the report
 TableSeq(S) == DiffSeq(S)
